@@ -77,7 +77,7 @@ var (
 func RunCtxEnd(e *Env) {
 	R := e.R
 	R.Rule = "grid (seeded sample in quick): call kind (21 methods, one-way with and without send-waiting) x behaviour of the targeted node (handler never answers / holds its connection, proxy stalled = peer not reading, connections refused, reconnect into a tarpit, slow) " +
-		"(plus: server streams that never end, feeding a quorum function that costs 0.5 ms per reply) x {other nodes answer normally, other nodes' handlers fail by themselves} x context kind (ended by the harness; context.WithCancelCause / WithTimeoutCause carrying a cause that differs from Err) x concurrent traffic on the same node (none, a background call with context.Background() stuck on it, 8 goroutines) x instant of the context end placed with hooks (before the call, while queued at enq.registered, while being written at snd.beforeWrite, while a write is blocked by flow control, while awaiting replies) x cancel/deadline; " +
+		"(plus: server streams that never end, feeding a quorum function that costs 0.5 ms per reply) x {other nodes answer normally, other nodes' handlers fail by themselves} x context kind (ended by the harness; context.WithCancelCause / WithTimeoutCause carrying a cause that differs from Err) x concurrent traffic on the same node (none, a background call with context.Background() stuck on it, 8 goroutines, a streaming correctable whose consumer is stalled so that the node's receiver is parked handing it a reply) x instant of the context end placed with hooks (before the call, while queued at enq.registered, while being written at snd.beforeWrite, while a write is blocked by flow control, while awaiting replies) x cancel/deadline; " +
 		"oracle: hang rule (W, two goroutine dumps) from the logged instant of the context end; where the call reports an error, errors.Is(err, ctx.Err()) unless the node itself legitimately failed the call; distinct = grid point"
 	R.Assume("a node error (e.g. 'stream is down' for a refused connection) that is available when the context ends is a legitimate outcome; only errors that exist because of the context's end must match it")
 	rng := e.Rand(8)
@@ -134,6 +134,11 @@ func RunCtxEnd(e *Env) {
 	}
 	var mu sync.Mutex
 	hangs := map[string]int{}    // signature -> count
+	for rep := 0; rep < e.Pick(2, 20); rep++ {
+		for _, m := range []string{"RPC", "QC", "Async", "Corr", "QCCombo"} {
+			cases = append(cases, XCase{Method: m, N: 2, Behaviour: "never-answers", Instant: "awaiting-replies", Traffic: "stream-call-with-stalled-consumer", Deadline: rep%2 == 0})
+		}
+	}
 	skipKey := map[string]bool{} // (behaviour|instant|traffic|class) that already produced a confirmed hang twice
 	var wg sync.WaitGroup
 	sem := make(chan struct{}, 12)
@@ -203,7 +208,7 @@ func runCtxEndCase(e *Env, idx int, c XCase) (hangSig string) {
 	var ronce sync.Once
 	open := func() { ronce.Do(func() { close(release) }) }
 	defer open()
-	var entered, streamed atomic.Int64
+	var entered, streamed, bgStreamed atomic.Int64
 	var underTest atomic.Uint64 // token of the call under test
 	bad := 0                    // index of the misbehaving node
 	if c.OthersFail {
@@ -211,6 +216,22 @@ func runCtxEndCase(e *Env, idx int, c XCase) (hangSig string) {
 	}
 	cl.SetBehaviour(func(hc *h.HCall) (*puppet.Rep, error) {
 		entered.Add(1)
+		if hc.Req.GetKind() == 9 && hc.Send != nil {
+			// the background stream call of traffic kind "stream-call-with-stalled-consumer"
+			for i := 0; ; i++ {
+				select {
+				case <-release:
+					return nil, nil
+				case <-hc.S.Done():
+					return nil, nil
+				default:
+				}
+				if hc.Send(hc.Rep(uint32(i))) != nil {
+					return nil, nil
+				}
+				bgStreamed.Add(1)
+			}
+		}
 		if c.Behaviour == "streams-forever" {
 			if hc.Send == nil {
 				hc.Ctx.Release()
@@ -430,6 +451,28 @@ func runCtxEndCase(e *Env, idx int, c XCase) (hangSig string) {
 		}
 	case "write-blocked", "awaiting-replies":
 		time.Sleep(awaitDelay)
+		if c.Traffic == "stream-call-with-stalled-consumer" {
+			// the call under test is in flight; now another call - a streaming correctable on the same nodes - gets replies
+			// faster than its consumer takes them (its quorum function is stalled until the case is over), so the nodes'
+			// receivers end up parked handing a reply over to it
+			btok := h.NewToken()
+			breq := &puppet.Req{Call: btok, Seq: btok, Kind: 9}
+			cl.QS.Register(&h.CallMon{Token: btok, Orig: breq, Decide: func(inv *h.Inv) (bool, int) {
+				<-release
+				return true, 1
+			}})
+			bg = append(bg, h.Go("bg-stalled-stream", func() { <-cl.Cfg.CorrStream(bgctx, breq).Done() }))
+			last, stable := int64(-1), 0
+			for i := 0; i < 200 && stable < 5; i++ { // the servers' sends stop once the flow-control windows are full
+				time.Sleep(2 * time.Millisecond)
+				if v := bgStreamed.Load(); v == last && v > 0 {
+					stable++
+				} else {
+					last, stable = v, 0
+				}
+			}
+			R.Count("replies_streamed_to_a_stalled_consumer_before_the_context_ended", bgStreamed.Load())
+		}
 		ctx.end(ctxErr)
 		ended.Store(true)
 	}
